@@ -192,8 +192,10 @@ class GroundedPrecondition:
         """
         grounded_preconditions = Precondition(condition.binary_operator)
         tmp_action = Action()
-        tmp_action.signature = self.action.signature
-        tmp_action.signature[condition.quantified_parameter] = condition.quantified_type
+        tmp_action.signature = {
+            **self.action.signature,
+            condition.quantified_parameter: condition.quantified_type,
+        }
         for sub_condition in condition.operands:
             if isinstance(sub_condition, Predicate):
                 grounded_predicate = ground_predicate(
